@@ -485,6 +485,8 @@ impl<'a> LineBreaker<'a> {
     ) -> Option<Vec<usize>> {
         // TeX.2021.863: if threshold>inf_bad then threshold:=inf_bad
         let tolerance = tolerance.min(INFINITE_BADNESS);
+        let mut replaced_until = 0_usize;
+        let mut prev_p: Option<usize> = None;
         let mut auto_breaking = true;
         let mut passive_nodes = vec![PassiveNode {
             elem: 0,
@@ -516,6 +518,21 @@ impl<'a> LineBreaker<'a> {
         for i in 0..=list.len() {
             let elem = list.get(i);
             use ds::Horizontal::*;
+            if i < replaced_until {
+                // TeX.2021.869: nodes replaced by a discretionary only contribute their width
+                if let Some(e) = elem {
+                    diffs.width += match e {
+                        Char(ds::Char { char, font }) | Ligature(ds::Ligature { char, font, .. }) => {
+                            font_repo.width(*char, *font).unwrap_or(Scaled::ZERO)
+                        }
+                        HBox(ds::HBox { width, .. }) | VBox(ds::VBox { width, .. }) | Rule(ds::Rule { width, .. }) | Kern(ds::Kern { width, .. }) => *width,
+                        _ => Scaled::ZERO,
+                    };
+                    continue;
+                }
+            }
+            let prev = prev_p;
+            prev_p = Some(i);
             let mut disc_width = Scaled::ZERO;
             // This switch is TeX.2021.866. In TeX, Knuth invokes `try_break` inline
             // at the relevant parts of the switch. We instead return the two arguments
@@ -549,6 +566,7 @@ impl<'a> LineBreaker<'a> {
                     }
                     Discretionary(discretionary) => {
                         // TeX.2021.869
+                        replaced_until = i + 1 + discretionary.replace_count as usize;
                         disc_width = discretionary
                             .pre_break
                             .iter()
@@ -584,7 +602,7 @@ impl<'a> LineBreaker<'a> {
                     }
                     Glue(glue) => {
                         // TeX.2021.868
-                        if auto_breaking && i > 0 && list[i - 1].precedes_break() {
+                        if auto_breaking && prev.map(|j| list[j].precedes_break()).unwrap_or(false) {
                             // List of allowable line breaks in TeXBook chapter 14 p96:
                             // (a) at glue, provided that this glue is immediately preceded by
                             // a non-discardable item, and that it is not part of a math formula
